@@ -216,7 +216,7 @@ def run_shard(desc):
 def replay(case):
     from ..probe import probe
     fx = case.get("fx")
-    o = probe().one(lc.calc_case(case["txs"], record=True, fx=fx))
+    o = probe().one(lc.calc_case(case["txs"], record=True, fx=fx, front=True))
     conv = fxm.converter(fxm.Table(known_codes())) if fx else hmrc.gbp_identity
     vs = oracle_with(conv)(case["txs"], o, Counter(), {}, set())
     for x in vs:
